@@ -1200,6 +1200,16 @@ func (fv *FuncVC) floatOp(name string, rt types.Type, args ...Term) Term {
 	for _, a := range args {
 		fn += "_" + sortTag(a.Sort, fv.Mode)
 	}
+	if name == "fmul" && len(args) == 2 && rs.Kind == KFloat {
+		// x * 1.0 is x for every IEEE value (NaN, infinities and signed zeros included)
+		one := fmt.Sprintf("fconst_%d_1", rs.W)
+		if args[1].S == one {
+			return Term{S: args[0].S, Sort: rs, Go: rt}
+		}
+		if args[0].S == one {
+			return Term{S: args[1].S, Sort: rs, Go: rt}
+		}
+	}
 	if fv.fp {
 		body := ""
 		switch name {
@@ -1222,7 +1232,11 @@ func (fv *FuncVC) floatOp(name string, rt types.Type, args ...Term) Term {
 				case args[0].Sort.Kind == KFloat:
 					body = fmt.Sprintf("((_ to_fp %d %d) RNE x0)", eb, sb)
 				case args[0].Sort.Kind == KInt && fv.Mode == ModeInt:
-					body = fmt.Sprintf("((_ to_fp %d %d) RNE (to_real x0))", eb, sb)
+					// int -> float stays an uninterpreted (hence functional) symbol: the
+					// solvers do not decide to_fp of a non-constant real; nothing is
+					// assumed about the conversion beyond congruence
+					_ = eb
+					_ = sb
 				}
 			}
 		}
